@@ -567,12 +567,14 @@ func (a *Emitter) EmitBytes(b []byte) {
 		cl := asmLine{
 			asmLineType: lineDB,
 			address:     a.address,
-			byteCount:   blen,
+			byteCount:   0,
 			ins:         "",
 			argsFormat:  "",
 		}
 		for i, v := range b {
 			s.Write([]byte{'$', hextable[(v>>4)&0xF], hextable[v&0xF]})
+			// each listing line carries the count of its own bytes, not of the whole block:
+			cl.byteCount++
 			if i&15 == 15 {
 				cl.ins = s.String()
 				a.lines = append(a.lines, cl)
@@ -580,6 +582,7 @@ func (a *Emitter) EmitBytes(b []byte) {
 				s.WriteString("db ")
 				cl.ins = ""
 				cl.address = a.address + uint32(i) + 1
+				cl.byteCount = 0
 			} else if i < blen-1 {
 				s.Write([]byte{',', ' '})
 				continue
